@@ -11,34 +11,67 @@
 (* connection points to when it finishes - the behaviour of the code       *)
 (* before commit 1d23f4b - and TLC finds both the stale verdict and the    *)
 (* deadlock (non-vacuity of the properties).                               *)
+(*                                                                         *)
+(* The goroutine is launched by the first chunk ("spawned") and calls the   *)
+(* backend when it is first scheduled (Begin).  INTENDED: it does so while  *)
+(* its transfer is still the current one - a delivery whose transfer was    *)
+(* ended (Reset) or whose session was logged out before it ever ran calls   *)
+(* nothing (Skip).  With LateBegin = TRUE it calls the backend whenever it  *)
+(* is scheduled - what conn.go does - and TLC finds Data beginning after    *)
+(* the Reset that ended its transaction (C03) and after Logout (C08): the   *)
+(* known finding "late-delivery-start" (DESIGN.md section 5).               *)
 (***************************************************************************)
 EXTENDS Naturals, Sequences, FiniteSets, TLC
 
 CONSTANTS Transfers,   \* e.g. 1..2, started in this order
-          Deviation    \* BOOLEAN
+          Deviation,   \* BOOLEAN
+          LateBegin    \* BOOLEAN
 
 VARIABLES started,     \* transfers started so far (a number)
           cur,         \* the connection's current transfer (0 = none)
           chan,        \* [Transfers -> Seq of results]: result channels, capacity 1
-          gpc,         \* [Transfers -> "none" | "running" | "blocked" | "done"]
+          gpc,         \* [Transfers -> "none" | "spawned" | "running" | "blocked" | "done"]
           waiting,     \* the loop is waiting for the verdict of cur (LAST received)
-          reply        \* [Transfers -> 0 | verdict]: the final reply given for the transfer
+          reply,       \* [Transfers -> 0 | verdict]: the final reply given for the transfer
+          closed,      \* the connection was closed (Logout)
+          cbs          \* history of backend callbacks: <<"begin", t>>, <<"reset", t>>, <<"logout", 0>>
 
-vars == <<started, cur, chan, gpc, waiting, reply>>
+vars == <<started, cur, chan, gpc, waiting, reply, closed, cbs>>
 N == Cardinality(Transfers)
 
 Init == /\ started = 0 /\ cur = 0 /\ chan = [t \in Transfers |-> <<>>]
         /\ gpc = [t \in Transfers |-> "none"] /\ waiting = FALSE
         /\ reply = [t \in Transfers |-> 0]
+        /\ closed = FALSE /\ cbs = <<>>
 
-\* first chunk of a new transfer: channel, goroutine
-Start == /\ cur = 0 /\ ~waiting /\ started < N
+\* first chunk of a new transfer: channel, goroutine (not yet scheduled)
+Start == /\ ~closed /\ cur = 0 /\ ~waiting /\ started < N
          /\ started' = started + 1 /\ cur' = started + 1
-         /\ gpc' = [gpc EXCEPT ![started + 1] = "running"]
-         /\ UNCHANGED <<chan, waiting, reply>>
+         /\ gpc' = [gpc EXCEPT ![started + 1] = "spawned"]
+         /\ UNCHANGED <<chan, waiting, reply, closed, cbs>>
+
+\* the goroutine of t is scheduled and calls Data/LMTPData
+Begin(t) ==
+  /\ gpc[t] = "spawned"
+  /\ LateBegin \/ (cur = t /\ ~closed)
+  /\ gpc' = [gpc EXCEPT ![t] = "running"]
+  /\ cbs' = Append(cbs, <<"begin", t>>)
+  /\ UNCHANGED <<started, cur, chan, waiting, reply, closed>>
+
+\* INTENDED only: the transfer ended before its delivery ever ran - nothing is called
+Skip(t) ==
+  /\ gpc[t] = "spawned" /\ ~LateBegin /\ (cur # t \/ closed)
+  /\ gpc' = [gpc EXCEPT ![t] = "done"]
+  /\ UNCHANGED <<started, cur, chan, waiting, reply, closed, cbs>>
 
 \* RSET / EHLO / failed chunk: the transfer is abandoned (its goroutine goes on)
-Abort == /\ cur # 0 /\ ~waiting /\ cur' = 0
+Abort == /\ ~closed /\ cur # 0 /\ ~waiting /\ cur' = 0
+         /\ cbs' = Append(cbs, <<"reset", cur>>)
+         /\ UNCHANGED <<started, chan, gpc, waiting, reply, closed>>
+
+\* QUIT / EOF / giving up: the session is logged out
+Close == /\ ~closed /\ ~waiting /\ closed' = TRUE /\ cur' = 0
+         /\ cbs' = Append(cbs, <<"logout", 0>>)
          /\ UNCHANGED <<started, chan, gpc, waiting, reply>>
 
 \* the backend of transfer t returns: its result (the marker t) is sent
@@ -50,25 +83,35 @@ Finish(t) ==
           /\ gpc' = [gpc EXCEPT ![t] = "blocked"] /\ UNCHANGED chan
      ELSE /\ chan' = [chan EXCEPT ![target] = Append(@, t)]
           /\ gpc' = [gpc EXCEPT ![t] = "done"]
-  /\ UNCHANGED <<started, cur, waiting, reply>>
+  /\ UNCHANGED <<started, cur, waiting, reply, closed, cbs>>
 
 \* LAST chunk received: the loop waits for the verdict of the current transfer
-Last == /\ cur # 0 /\ ~waiting /\ waiting' = TRUE
-        /\ UNCHANGED <<started, cur, chan, gpc, reply>>
+Last == /\ ~closed /\ cur # 0 /\ ~waiting /\ waiting' = TRUE
+        /\ UNCHANGED <<started, cur, chan, gpc, reply, closed, cbs>>
 
 Reply == /\ waiting /\ chan[cur] # <<>>
          /\ reply' = [reply EXCEPT ![cur] = Head(chan[cur])]
          /\ chan' = [chan EXCEPT ![cur] = Tail(@)]
          /\ waiting' = FALSE /\ cur' = 0
-         /\ UNCHANGED <<started, gpc>>
+         /\ cbs' = Append(cbs, <<"reset", cur>>)
+         /\ UNCHANGED <<started, gpc, closed>>
 
-Done == started = N /\ cur = 0 /\ \A t \in Transfers : gpc[t] \in {"done", "blocked"}
-Next == Start \/ Abort \/ Last \/ Reply \/ (\E t \in Transfers : Finish(t)) \/ (Done /\ UNCHANGED vars)
-Spec == Init /\ [][Next]_vars /\ WF_vars(Reply) /\ \A t \in Transfers : WF_vars(Finish(t))
+Done == (started = N \/ closed) /\ cur = 0 /\ \A t \in Transfers : gpc[t] \in {"none", "done", "blocked"}
+Next == \/ Start \/ Abort \/ Close \/ Last \/ Reply
+        \/ \E t \in Transfers : Begin(t) \/ Skip(t) \/ Finish(t)
+        \/ (Done /\ UNCHANGED vars)
+Spec == Init /\ [][Next]_vars /\ WF_vars(Reply)
+        /\ \A t \in Transfers : WF_vars(Finish(t)) /\ WF_vars(Begin(t)) /\ WF_vars(Skip(t))
 
 \* C04: a final reply reports that very transfer's verdict
 OwnVerdict == \A t \in Transfers : reply[t] # 0 => reply[t] = t
 \* C20: no delivery goroutine is ever left blocked, and a waiting loop is eventually answered
 NoGoroutineBlocked == \A t \in Transfers : gpc[t] # "blocked"
 WaitEnds == waiting ~> ~waiting
+\* C03: Data is seen only inside its own transaction - never after the Reset that ended it
+C03_NoBeginAfterReset ==
+  \A i, j \in DOMAIN cbs : (i < j /\ cbs[i][1] = "reset") => ~(cbs[j][1] = "begin" /\ cbs[j][2] = cbs[i][2])
+\* C08: after Logout no callback begins
+C08_NoBeginAfterLogout ==
+  \A i, j \in DOMAIN cbs : (i < j /\ cbs[i][1] = "logout") => cbs[j][1] # "begin"
 =============================================================================
